@@ -393,16 +393,21 @@ def build_points(K, spec):
     entered through the coordinates named by spec['src']"""
     src = spec["src"]
     K = np.array(K, dtype=float)
-    if src == "klein":
-        return hyperbolic.Point(K.copy(), model="klein")
-    if src == "poincare":
-        return hyperbolic.Point(H.klein_to_poincare(K), model="poincare")
-    if src == "halfspace":
-        return hyperbolic.Point(H.klein_to_model(K, "halfspace"), model="halfspace")
-    if src == "projective":
-        s = np.array(spec["scales"], dtype=float).reshape(K.shape[:-1] + (1,))
-        X = np.concatenate([np.ones(K.shape[:-1] + (1,)), K], axis=-1) * s
-        return hyperbolic.Point(X)
+    # (the coordinate arrays are the caller's: it overwrites them once the points exist)
+    h = gen.Handed()
+    try:
+        if src == "klein":
+            return hyperbolic.Point(h.give(K), model="klein")
+        if src == "poincare":
+            return hyperbolic.Point(h.give(H.klein_to_poincare(K)), model="poincare")
+        if src == "halfspace":
+            return hyperbolic.Point(h.give(H.klein_to_model(K, "halfspace")), model="halfspace")
+        if src == "projective":
+            s = np.array(spec["scales"], dtype=float).reshape(K.shape[:-1] + (1,))
+            X = np.concatenate([np.ones(K.shape[:-1] + (1,)), K], axis=-1) * s
+            return hyperbolic.Point(h.give(X))
+    finally:
+        h.scribble()
     if src == "int":
         W = spec["W"]
         X = np.concatenate([np.full(K.shape[:-1] + (1,), W), np.rint(K * W)],
@@ -1154,13 +1159,32 @@ def body_points(case, ctx):
     want = D.to_model(D.act_klein(P, M), model).reshape((-1, 2))
     pt = build_points(P, case)
     label_common(ctx, case, M)
-    with hyp_drawing(case, model, init_of(case["prog"])) as d:
-        apply_program(d, case["prog"], hyperbolic.Isometry)
+    prog = case["prog"]
+    # when the program ends with a transform operation, the same point object is also drawn
+    # before that last operation: two artists, each at its own transform
+    twice = bool(prog) and prog[-1][0] != "init" and len(repr(case["pts"])) % 2 == 0
+    with hyp_drawing(case, model, init_of(prog)) as d:
+        if twice:
+            apply_program(d, prog[:-1], hyperbolic.Isometry)
+            d.draw_point(pt, **case["style"])
+            apply_program(d, prog[-1:], hyperbolic.Isometry)
+        else:
+            apply_program(d, prog, hyperbolic.Isometry)
         d.draw_point(pt, **case["style"])
         lines = _line_data(d.ax)
         others = len(d.ax.patches) + len(d.ax.collections)
         decoy = d._vt.get("decoy_ax")
         stray = n_artists(decoy) if decoy is not None else 0
+    if twice:
+        ctx.label("same-object-drawn-before-and-after-a-transform-change")
+        ctx.check(len(lines) == 2, "two draw_point calls add two Line2D artists",
+                  lines=len(lines))
+        want1 = D.to_model(D.act_klein(P, D.run_program(prog[:-1])), model).reshape((-1, 2))
+        sc1 = 1.0 + np.max(np.abs(want1), axis=-1, keepdims=True, initial=0.0)
+        ok1 = np.all(np.isfinite(want1), axis=-1)
+        ctx.small("the first drawing of the object used the transform of its time",
+                  np.where(ok1[:, None], np.abs(lines[0] - want1) / (1e-9 * sc1 ** 2), 0.0), 1.0)
+        lines = lines[1:]
     if decoy is not None:
         ctx.label("second-figure-open")
         ctx.check(stray == 0, "draw_point adds nothing to axes other than the drawing's",
